@@ -138,7 +138,8 @@ Variants(ln) ==
          { <<"odata-short", "        1 acgtacgtac gtacgtacgt acgtacgtac gtacgtacgt acgtacgtac gtacgtacg", 59, "">>,
            <<"odata-group", "        1 acgtacgtacg tacgtacgt acgtacgtac gtacgtacgt acgtacgtac gtacgtacgt", 60, "">> }
     [] ln.kind = "CONTIG" ->
-         { <<"contig-bad", "CONTIG      join(U00096.3:1..", 0, "">>, <<"contig-noparen", "CONTIG      U00096.3:1..100", 0, "">> }
+         { <<"contig-bad", "CONTIG      join(U00096.3:1..", 0, "contigbad">>, <<"contig-noclose", "CONTIG      join(U00096.3:1..100", 0, "contigbad">>,
+           <<"contig-nodots", "CONTIG      join(U00096.3:1.100)", 0, "contigbad">>, <<"contig-noparen", "CONTIG      U00096.3:1..100", 0, "">> }
     [] ln.kind = "FDESC" -> { <<"fdesc-nogt", "seq1 without marker", 0, "">> }
     [] ln.kind = "FDATA" -> { <<"fdata-gt", "acgt>acgt", 9, "">> }
     [] OTHER -> {}
